@@ -38,6 +38,7 @@ def run(ctx):
     ctx.do(rule_newest)
     ctx.do(rule_navigation)
     ctx.do(rule_delegation)
+    ctx.do(rule_environment_attaches_every_source)
     # the union is taken over what the MEMBERS answer: each member applies the filters it is handed to every answer (C12) and
     # answers get() with its newest version (C11)
     from . import C11 as _C11, C12 as _C12
@@ -620,3 +621,29 @@ def rule_delegation(ctx):
         run.check(okf, R, key(env.module.relpath, env.qualname, nme), "Environment wiring changed: %s" % nme, file=env.module.relpath,
                   line=env.node.lineno, function=env.qualname, expected=nme, found="changed")
     run.floor(R, 11)
+
+
+def rule_environment_attaches_every_source(ctx):
+    """Environment(store=S, source=X): both are members of the environment's composite.  Each `add_data_source` of the
+    constructor depends on ITS OWN argument only -- it does not sit in the else-part of the test of another argument (`elif
+    source:` after `if store:` drops everything only X holds as soon as a store is given as well)."""
+    run = ctx.run
+    prog = ctx.prog
+    R = "C18.member-forward"
+    fi = prog.cls("stix2.environment::Environment").methods.get("__init__")
+    if fi is None:
+        raise AnalysisError("anchor missing: Environment.__init__")
+    rel = fi.module.relpath
+    calls = [c for c in body_walk(fi.node) if isinstance(c, ast.Call) and call_simple_name(c) == "add_data_source" and c.args]
+    if len(calls) < 2:
+        raise AnalysisError("Environment.__init__: fewer than two add_data_source calls (%d)" % len(calls))
+    for c in calls:
+        arg_root = c.args[0]
+        while isinstance(arg_root, ast.Attribute):
+            arg_root = arg_root.value
+        own = norm(arg_root)
+        foreign = [norm(t) for t, pol, _ in guard_chain(c) if (not pol) or (own not in names_in(t))]
+        run.check(not foreign, R, key(rel, fi.qualname, "attached-on-its-own-argument:%s" % own),
+                  "whether the %s given to Environment() is attached depends on another argument (%s): given together with it, "
+                  "what only this source holds is missing from every answer of the environment" % (own, "; ".join(foreign)), file=rel,
+                  line=c.lineno, function=fi.qualname, expected="if %s: self.source.add_data_source(...)" % own, found=foreign)
